@@ -101,6 +101,31 @@ func c16Limits(c *Ctx) {
 			c.Check(it.IsZero(), rule, fn, "limit:"+pr.name, lastInstr(e.From), "returns true whenever "+pr.name+" is reached", "wouldOverflow can return false although the "+pr.name+" limit is reached", path)
 		}
 	}
+	// no early way out: a result other than true is reached only after the request-wide limits were looked at (an
+	// early `return false` for a partition that is not in the buffer yet would skip them)
+	notTrueRet := func(it Item) bool { return IsReturn()(it) && !returnsBool(true)(it) }
+	for _, w := range []struct {
+		name string
+		ev   []Pred
+	}{
+		{"request-bytes", []Pred{preds[0].p}},
+		{"max-messages", []Pred{preds[2].p, Cmp{token.GTR, FieldLoad("Config.Producer.Flush.MaxMessages"), ConstInt(0)}}},
+	} {
+		looked := func(it Item) bool {
+			bo, ok := it.In.(*ssa.BinOp)
+			if !ok {
+				return false
+			}
+			for _, pr := range w.ev {
+				if pr.holds(bo, false) || pr.holds(bo, true) {
+					return true
+				}
+			}
+			return false
+		}
+		it, path := reg.MustPrecede(looked, notTrueRet)
+		c.Check(it.IsZero(), rule, fn, "limit-looked-at:"+w.name, it.Instr(), "every result other than true comes after the "+w.name+" test", "wouldOverflow can answer 'fits' without having looked at the "+w.name+" limit (an early return, e.g. for a partition that has nothing buffered yet): a message for a new partition is admitted although the request already holds Flush.MaxMessages messages (or is at the size limit)", path)
+	}
 	// max-messages only counts when configured (> 0)
 	for _, e := range reg.EstablishingEdges(preds[2].p) {
 		g, path := reg.Guarded(Item{In: e.To.Instrs[0]}, Cmp{token.GTR, FieldLoad("Config.Producer.Flush.MaxMessages"), ConstInt(0)})
